@@ -7,6 +7,7 @@ import (
 	"fmt"
 	"io"
 	"net"
+	"net/url"
 	"os"
 	"strings"
 	"sync"
@@ -108,6 +109,9 @@ type stubClientFactory struct {
 	dialErr error
 	remote  net.Conn
 	dialed  string
+	// viaDialFn: like a real transport, make the outgoing TCP connection
+	// with the dial function the handler passes in (the upstream proxy's)
+	viaDialFn bool
 }
 
 func (f *stubClientFactory) Transport() base.Transport { return stubTransport{} }
@@ -119,6 +123,9 @@ func (f *stubClientFactory) ParseArgs(*pt.Args) (any, error) {
 }
 func (f *stubClientFactory) Dial(network, address string, dialFn base.DialFunc, args any) (net.Conn, error) {
 	f.dialed = address
+	if f.viaDialFn {
+		return dialFn(network, address)
+	}
 	if f.dialErr != nil {
 		return nil, f.dialErr
 	}
@@ -219,7 +226,10 @@ func handlerLeak(text string, loopback bool) string {
 	return ""
 }
 
-var clientStages = []string{"bad-args", "dial-fails", "reply-fails", "relay-error", "relay-clean"}
+// via-<scheme>-proxy-unreachable: an upstream proxy is configured and the TCP
+// connection to it is refused (a loopback port nobody listens on; the
+// proxy's address 127.0.0.1 is the canary)
+var clientStages = []string{"bad-args", "dial-fails", "reply-fails", "relay-error", "relay-clean", "via-http-proxy-unreachable", "via-socks5-proxy-unreachable", "via-socks4a-proxy-unreachable"}
 
 // (no "OR port refused" stage: goptlib v1.5.0's DialOr asserts the nil
 // connection of a failed dial to *net.TCPConn and panics before the handler
@@ -284,6 +294,18 @@ func handlerScenario(role, stage string) mc.Scenario {
 			}
 		}
 		_ = orLn
+		var proxyURI *url.URL
+		if strings.HasPrefix(stage, "via-") {
+			ln, err := net.ListenTCP("tcp", &net.TCPAddr{IP: net.IPv4(127, 0, 0, 1)})
+			if err != nil {
+				fail(c, "setup", "handler-log/setup", "%v", err)
+				return
+			}
+			port := ln.Addr().(*net.TCPAddr).Port
+			ln.Close()
+			scheme := strings.TrimSuffix(strings.TrimPrefix(stage, "via-"), "-proxy-unreachable")
+			proxyURI = &url.URL{Scheme: scheme, Host: fmt.Sprintf("127.0.0.1:%d", port)}
+		}
 		n, lines, withCanary := 0, 0, 0
 		outcomes := map[string]bool{}
 		for _, tg := range handlerTargets() {
@@ -309,7 +331,12 @@ func handlerScenario(role, stage string) mc.Scenario {
 					case "reply-fails":
 						conn.failAt, conn.werr = 1, e
 					}
-					verifClientHandler(f, conn)
+					if proxyURI != nil {
+						f.viaDialFn = true
+						verifClientHandlerVia(f, conn, proxyURI)
+					} else {
+						verifClientHandler(f, conn)
+					}
 					if stage != "bad-args" && f.dialed != tg.addr {
 						c.Count("socks_target_not_as_scripted", 1)
 						c.Observe("dialed", f.dialed+" vs "+tg.addr)
@@ -336,7 +363,7 @@ func handlerScenario(role, stage string) mc.Scenario {
 				if os.Getenv("VERIF_C20_DEBUG") != "" && n <= 3 {
 					fmt.Fprintf(os.Stderr, "DEBUG %s/%s %s: %q\n", role, stage, sh.desc, text)
 				}
-				if l := handlerLeak(text, role == "server"); l != "" {
+				if l := handlerLeak(text, role == "server" || proxyURI != nil); l != "" {
 					fail(c, "scrubbed", "handler-log/"+role+"/"+stage, "safe logging, %s handler, connection ends at %q with error %s, peer/target %s: the log got %q, which reveals %q", role, stage, sh.desc, tg.addr, text, l)
 					return
 				}
